@@ -846,6 +846,11 @@ fn key_only(out: &mut Out) {
         let mut emit = |out: &mut Out, kind: &str, entry: &str, v: &'static str| {
             out.line(&format!("C keyonly {} {} {}", kind, id, entry), v);
             out.line(&format!("J keyok {} {} {} {}", entry, kind, id, v), "ok");
+            if v == "PANIC" {
+                // outside C12's statement (a panic is not an acceptance): observation only
+                out.count("observation: constructor panics instead of returning an error");
+                out.note(&format!("observation {}({})", entry, id), format!("{} with key id {} ({}) panics instead of returning an error", entry, id, key_string(id)));
+            }
         };
         emit(out, "pkh", "Pkh::new", okerr(guard(|| Pkh::new(k.clone()))));
         emit(out, "pkh", "Descriptor::new_pkh", okerr(guard(|| Descriptor::new_pkh(k.clone()))));
